@@ -227,6 +227,14 @@ def rule_xport(m):
             adds = _calls(f, 'addEdge')
             if len(adds) != 1:
                 why = 'expected one insertion'
+                # of several insertions, one that does not hand over a label (it resolves to the (i, j, bool force) overload)
+                # copies the edge with a default label - definite for every labelled instantiation
+                if 'NoLabel' not in f.targs:
+                    for a_ in adds:
+                        cps = f.unit.decl(a_['callee']).get('cptypes', []) if 'callee' in a_ else []
+                        if len(cps) == 3 and cps[2] == 'bool':
+                            why = '`%s` inserts an edge of the subgraph without its label (the call resolves to addEdge(i, j, bool ' \
+                                  'force)): that edge carries EdgeLabel() instead of the label it has in the graph' % f.expr_text(a_['i'])[:50]
             else:
                 ad = adds[0]
                 encl = [n for n in outer if ad['i'] in f.descendants(n['body'])]
